@@ -16,5 +16,5 @@ git apply $SRC/patch.diff || { echo "PATCH DOES NOT APPLY"; exit 2; }
 echo "== demo with patch"; (cd $MUT/$PKG && go test -count=1 -run 'Seed|Demo|C[0-9][0-9]' . 2>&1 | tail -3)
 rm $MUT/$PKG/zz_seed_demo_test.go
 echo "== existing tests with patch"; files=$(git diff --name-only | xargs -n1 dirname | sort -u); for d in $files; do (cd $MUT/$d && go test -count=1 . 2>&1 | tail -1); done
-for c in $CHECKS; do echo "== check $c against the patched tree"; (cd /verif && VERIF_REPO=$MUT ./check $c 2>&1 | grep -v "^  harness\|VIOLATION-CLASS\|^loaded\|^H[0-9A-Za-z]*:" | cut -c1-260 | tail -6; echo "exit=${PIPESTATUS[0]}"); done
+for c in $CHECKS; do echo "== check $c against the patched tree"; (cd ${VERIF_ROOT:-/verif} && VERIF_REPO=$MUT ./check $c 2>&1 | grep -v "^  harness\|VIOLATION-CLASS\|^loaded\|^H[0-9A-Za-z]*:" | cut -c1-260 | tail -6; echo "exit=${PIPESTATUS[0]}"); done
 cd /; git -C /repo worktree remove --force $MUT
